@@ -42,13 +42,25 @@ structure Engine where
   bad : Bool := false
 deriving Repr
 
+/-! String helpers by structural recursion on characters, so that `decide` can evaluate the
+chain model and the dispatch on the regenerated tables. -/
+
+/-- split at every occurrence of the character `sep` -/
+def splitChar (sep : Char) : List Char → List Char → List (List Char)
+  | [], cur => [cur.reverse]
+  | c :: rest, cur => if c = sep then cur.reverse :: splitChar sep rest [] else splitChar sep rest (c :: cur)
+
+def endsWithSlash (p : String) : Bool := p.toList.getLast? = some '/'
+
+def startsWithChar (c : Char) (p : String) : Bool := p.toList.head? = some c
+
 def dropTrailingSlash (p : String) : String :=
-  if p.endsWith "/" then (p.dropEnd 1).toString else p
+  if endsWithSlash p then String.ofList p.toList.dropLast else p
 
 /-- gin `joinPaths` for clean arguments -/
 def joinPaths (abs rel : String) : String :=
   if rel = "" then abs
-  else dropTrailingSlash abs ++ (if rel.startsWith "/" then rel else "/" ++ rel)
+  else dropTrailingSlash abs ++ (if startsWithChar '/' rel then rel else "/" ++ rel)
 
 def Engine.lookup (s : Engine) (recv : String) : Option (String × List H) :=
   if recv = "engine" then some ("/", s.handlers)
@@ -116,11 +128,6 @@ def splitAmp : List Char → List Char → List (List Char)
   | ' ' :: '&' :: '&' :: ' ' :: rest, cur => cur.reverse :: splitAmp rest []
   | c :: rest, cur => splitAmp rest (c :: cur)
 
-/-- split at every occurrence of the character `sep` -/
-def splitChar (sep : Char) : List Char → List Char → List (List Char)
-  | [], cur => [cur.reverse]
-  | c :: rest, cur => if c = sep then cur.reverse :: splitChar sep rest [] else splitChar sep rest (c :: cur)
-
 def splitGuards (g : String) : List String :=
   if g = "" then [] else (splitAmp g.toList []).map String.ofList
 
@@ -164,13 +171,13 @@ def adminTable (newServer addStatus : List Raw) (status : List (String × List R
 
 /-! ## Dispatch -/
 
-def segs (p : String) : List String := p.splitOn "/"
+def segs (p : String) : List String := (splitChar '/' p.toList []).map String.ofList
 
 /-- number of `:param` segments bound, or `none` when the pattern does not match -/
 def matchSegs : List String → List String → Option (List String)
   | [], [] => some []
   | p :: ps, s :: ss =>
-    if p.startsWith ":" then
+    if startsWithChar ':' p then
       (if s = "" then none else (matchSegs ps ss).map (s :: ·))
     else if p = s then matchSegs ps ss else none
   | _, _ => none
@@ -191,17 +198,50 @@ inductive Dispatch
   | noRoute (chain : List H)
 deriving Repr
 
+/-- the trailing-slash sibling of a path -/
+def altPath (path : String) : String :=
+  if endsWithSlash path then dropTrailingSlash path else path ++ "/"
+
+/-- gin's `value.tsr && RedirectTrailingSlash` for a path that matched no route: the method
+has a tree, the method is not CONNECT, the path is not "/", and the sibling path is a route -/
+def tsrApplies (s : Engine) (method path : String) : Bool :=
+  s.routes.any (fun r => r.method = method) && method != "CONNECT" && path != "/" &&
+    (findRoute s.routes method (altPath path)).isSome
+
 /-- `Engine.handleHTTPRequest` with gin's defaults (`RedirectTrailingSlash`, no fixed-path
 redirect, no 405 handling) -/
 def dispatch (s : Engine) (method path : String) : Dispatch :=
   match findRoute s.routes method path with
   | some (r, ps) => .route r ps
   | none =>
-    let treeExists := s.routes.any (fun r => r.method = method)
-    let alt := if path.endsWith "/" then dropTrailingSlash path else path ++ "/"
-    if treeExists ∧ method ≠ "CONNECT" ∧ path ≠ "/" ∧ (findRoute s.routes method alt).isSome then
-      .redirect (if method = "GET" then 301 else 307)
+    if tsrApplies s method path then .redirect (if method = "GET" then 301 else 307)
     else .noRoute s.allNoRoute
+
+/-- what the engine did with a request, given the decision of the auth middleware `auth`
+for it (`none` = it called `Next`, `some (status, reason)` = it aborted with that answer);
+every other handler of a chain calls `Next` -/
+inductive Response
+  /-- trailing-slash redirect: no handler of any chain ran, the middleware was not asked -/
+  | redirect (code : Nat)
+  /-- the auth middleware aborted: nothing after it ran -/
+  | aborted (status : Nat) (reason : String)
+  /-- the whole chain ran (route handler, no-route handler, or the default 404) -/
+  | ran (chain : List H)
+deriving DecidableEq, Repr
+
+def runChain (auth : H) (deny : Option (Nat × String)) (chain : List H) : Response :=
+  if chain.contains auth then
+    match deny with
+    | some (s, why) => .aborted s why
+    | none => .ran chain
+  else .ran chain
+
+/-- `Engine.ServeHTTP` -/
+def respond (s : Engine) (auth : H) (deny : Option (Nat × String)) (method path : String) : Response :=
+  match dispatch s method path with
+  | .redirect c => .redirect c
+  | .route r _ => runChain auth deny r.chain
+  | .noRoute chain => runChain auth deny chain
 
 /-! ## The regenerated tables (`Generated/Facts.lean`, G4) -/
 
